@@ -74,6 +74,7 @@ VF_PROPERTY(write_conforms, 5, "table of 1..8 columns x 1..12 rows of arbitrary 
 	Cfg cfg = gen_csv_cfg(c.src); const char sep = cfg.opt.valuesSeparator; const bool noNul = cfg.stream && !cfg.opt.streamOptions.writeBom;
 	const size_t cols = 1 + c.src.draw(8), rows = 1 + c.src.len(11);
 	std::vector<std::string> headers; for (size_t i = 0; i < cols; i++) headers.push_back(gen_header(c.src, i, sep, noNul));
+	if (cols >= 2 && c.src.chance(1, 8)) { headers[c.src.draw(cols)] = ""; c.label("empty-column-name"); }   // a column may be named by the empty string (it sorts first)
 	Table table(rows); bool special = false;
 	for (auto& r : table) for (auto& h : headers) { r[h] = gen_cell(c.src, sep, noNul); special = special || cell_special(r[h], sep); }
 	c.nontrivial = special || cfg.stream; c.describe(vf::cat("write cols=", cols, " rows=", rows, " ", cfg.str(), " cell00=", vf::hex(table[0].begin()->second.substr(0, 30))));
@@ -100,7 +101,7 @@ VF_PROPERTY(read_conforming_renderings, 6, "the same kind of table rendered by t
 	Cfg cfg = gen_csv_cfg(c.src); const char sep = cfg.opt.valuesSeparator; const bool noNul = cfg.stream && !cfg.opt.streamOptions.writeBom;
 	const bool typed = c.src.coin(); const bool lf = c.src.coin(), finalBreak = c.src.coin();
 	std::vector<std::string> headers; size_t rows = 1 + c.src.len(10);
-	if (typed) headers = { "s", "n", "b", "d", "t" }; else { size_t cols = 1 + c.src.draw(8); for (size_t i = 0; i < cols; i++) headers.push_back(gen_header(c.src, i, sep, noNul)); }
+	if (typed) headers = { "s", "n", "b", "d", "t" }; else { size_t cols = 1 + c.src.draw(8); for (size_t i = 0; i < cols; i++) headers.push_back(gen_header(c.src, i, sep, noNul)); if (cols >= 2 && c.src.chance(1, 8)) { headers[c.src.draw(cols)] = ""; c.label("empty-column-name"); } }
 	// column order of the document
 	std::vector<size_t> order(headers.size()); for (size_t i = 0; i < order.size(); i++) order[i] = i; for (size_t i = order.size(); i > 1; i--) std::swap(order[i - 1], order[c.src.draw(i)]);
 	Table table(rows); std::vector<Typed> want(rows); bool special = false, quotedLate = false;
@@ -140,7 +141,7 @@ VF_PROPERTY(ragged_records_rejected, 2, "a conforming table in which one record 
 	Cfg cfg; cfg.stream = c.src.coin(); cfg.opt.valuesSeparator = SEPS[c.src.draw(5)]; const char sep = cfg.opt.valuesSeparator;
 	const size_t cols = 2 + c.src.draw(5), rows = 2 + c.src.draw(5), bad = c.src.draw(rows); const bool more = c.src.coin();
 	std::string text; for (size_t k = 0; k < cols; k++) { if (k) text.push_back(sep); text += "h" + std::to_string(k); } text += "\r\n";
-	for (size_t r = 0; r < rows; r++) { size_t n = r == bad ? (more ? cols + 1 : cols - 1) : cols; for (size_t k = 0; k < n; k++) { if (k) text.push_back(sep); text += refcsv::field(gen_cell(c.src, sep, true), sep, false); } text += "\r\n"; }
+	for (size_t r = 0; r < rows; r++) { size_t n = r == bad ? (more ? cols + 1 : cols - 1) : cols; for (size_t k = 0; k < n; k++) { if (k) text.push_back(sep); const bool extraEmpty = r == bad && more && k + 1 == n && c.src.chance(1, 2); text += extraEmpty ? std::string() : refcsv::field(gen_cell(c.src, sep, true), sep, false); } text += c.src.chance(1, 4) ? "\n" : "\r\n"; }
 	c.nontrivial = bad + 1 < rows; c.describe(vf::cat("ragged cols=", cols, " rows=", rows, " bad=", bad, " more=", more, " stream=", cfg.stream, " h=", vf::hash_bytes(text.data(), text.size())));
 	Table got; Outcome lo = load<CsvArchive>(got, text, cfg);
 	if (lo.ok()) c.fail("a record whose field count differs from the header was accepted", vf::cat("bad row ", bad, more ? " +1" : " -1", " text=", vf::hex(text.substr(0, 300))));
